@@ -50,9 +50,12 @@ def flatten(tree, prefix, parent, out, name, job, t=[0]):
 def spans_of(case):
     """list of span tuples in 'natural' order, with timestamps."""
     spans = []
+    empties = set(case.get("empty_root_parent") or ())
     for ti, (name, tree) in enumerate(case["traces"]):
         out = []
-        flatten(tree, f"t{ti}", None, out, name, f"job{ti}")
+        # OTLP/JSON exporters write "" for the parent of a root span
+        flatten(tree, f"t{ti}", "" if ti in empties else None, out, name,
+                f"job{ti}")
         for k, (sid, parent, typ, job, nm) in enumerate(out):
             start = 1000 * (ti + 1) + k
             spans.append((sid, parent, typ, job, nm, start, start + 5))
@@ -147,7 +150,7 @@ def two_deliveries(case, spans):
     for s in spans:
         kids.setdefault(s[1], []).append(s[0])
     rng_pick = case["late"]
-    cands = [s[0] for s in spans if s[1] is not None]
+    cands = [s[0] for s in spans if s[1]]
     if not cands:
         return
     for i in rng_pick:
@@ -168,7 +171,7 @@ def two_deliveries(case, spans):
             return (s[2], tuple(sorted(form(c) for c in ch.get(s[0], []))))
         out = {}
         for s in sp:
-            if s[1] is None:
+            if not s[1]:
                 out.setdefault(s[4], {})[s[3]] = form(s)
         return out
 
@@ -358,6 +361,8 @@ def classify(case):
         classes.append("buffered_window")
     if case.get("late") is not None:
         classes.append("two_deliveries_same_trace_ids")
+    if case.get("empty_root_parent"):
+        classes.append("root_with_empty_string_parent")
     return rep and nforms >= 2, classes
 
 
@@ -435,6 +440,9 @@ def case_strategy():
         if draw(st.integers(0, 4)) == 0:
             case["via_otel_to_pv"] = True
             case["pv_batch"] = draw(st.sampled_from([1, 2, 3, 1000]))
+        if draw(st.integers(0, 3)) == 0:
+            case["empty_root_parent"] = sorted(set(draw(st.lists(
+                st.integers(0, len(traces) - 1), min_size=1, max_size=4))))
         if draw(st.integers(0, 3)) == 0:
             case["late"] = draw(st.lists(st.integers(0, 40), min_size=1,
                                          max_size=3))
